@@ -217,8 +217,19 @@ def expand_combinators(prog, d):
             def agg(en, var, ops):
                 return {"k": "aggregate", "kind": {"agg": "adt", "adt": en, "variant": var, "vidx": VIDX[(en, var)], "fields": ["0"] if ops else []}, "ops": ops}
 
-            def call_f(args_ops, then_stmt):
-                """call the closure / fn with the given operands; result local returned; the arm block is split"""
+            def call_f(args_ops, then_stmt, direct=False):
+                """call the closure / fn with the given operands; result local returned; the arm block is split.
+                direct: the call's result is the combinator's result (the inliner can then thread a following `?`)"""
+                if direct and not dest["proj"]:
+                    if fdef[0] == "closure":
+                        tup = new_local("(?,)")
+                        nb["stmts"].append({"place": {"local": tup, "proj": []}, "rv": {"k": "aggregate", "kind": {"agg": "tuple"}, "ops": args_ops}, "line": line})
+                        cargs = [fop, {"k": "move", "place": {"local": tup, "proj": []}}]
+                    else:
+                        cargs = args_ops
+                    nb["term"] = {"k": "call", "callee": {"path": fdef[1], "resolved": fdef[1], "is_resolved": True, "local": True, "crate": "", "args": []},
+                                  "args": cargs, "dest": dest, "target": target, "span": span}
+                    return
                 res = new_local("?")
                 if fdef[0] == "closure":
                     tup = new_local("(?,)")
@@ -235,9 +246,9 @@ def expand_combinators(prog, d):
             if kind == "wrap":
                 call_f([{"k": "move", "place": pay}], lambda r, act=act: agg(act[1], act[2], [{"k": "move", "place": {"local": r, "proj": []}}]))
             elif kind == "call":
-                call_f([{"k": "move", "place": pay}], lambda r: {"k": "use", "op": {"k": "move", "place": {"local": r, "proj": []}}})
+                call_f([{"k": "move", "place": pay}], lambda r: {"k": "use", "op": {"k": "move", "place": {"local": r, "proj": []}}}, direct=True)
             elif kind == "call0":
-                call_f([], lambda r: {"k": "use", "op": {"k": "move", "place": {"local": r, "proj": []}}})
+                call_f([], lambda r: {"k": "use", "op": {"k": "move", "place": {"local": r, "proj": []}}}, direct=True)
             elif kind == "wrapcall0":
                 call_f([], lambda r, act=act: agg(act[1], act[2], [{"k": "move", "place": {"local": r, "proj": []}}]))
             elif kind == "keep":
@@ -246,6 +257,36 @@ def expand_combinators(prog, d):
                 nb["stmts"].append({"place": dest, "rv": {"k": "use", "op": {"k": "move", "place": pay}}, "line": line})
             elif kind == "unit":
                 nb["stmts"].append({"place": dest, "rv": agg(act[1], act[2], []), "line": line})
+        # a following `?`: arms whose class is known get their own copy of the branch/switch chain
+        chain = Inliner._try_chain(None, blocks, target, dest["local"]) if not dest["proj"] else None
+        if chain is not None:
+            chain_blocks, cont_b, brk_b = chain
+            for variant, act in acts.items():
+                cls = None
+                if act[0] in ("wrap", "keep", "wrapcall0") and act[2] in ("Ok", "Some"):
+                    cls = "ok"
+                elif act[0] in ("keep", "unit", "wrap", "wrapcall0") and act[2] in ("Err", "None"):
+                    cls = "err"
+                if cls is None:
+                    continue
+                # the last block of this arm is the one that jumps to `target`
+                last = arms[variant]
+                seen_ = set()
+                while blocks[last]["term"]["k"] == "call" and last not in seen_:
+                    seen_.add(last)
+                    last = blocks[last]["term"]["target"]
+                if blocks[last]["term"] != {"k": "goto", "target": target}:
+                    continue
+                cstart = len(blocks)
+                for k_, n_ in enumerate(chain_blocks):
+                    nb2 = copy.deepcopy(blocks[n_])
+                    if k_ + 1 < len(chain_blocks):
+                        nb2["term"]["target"] = cstart + k_ + 1
+                    else:
+                        nb2["term"] = {"k": "goto", "target": cont_b if cls == "ok" else brk_b}
+                    nb2["threaded"] = cls
+                    blocks.append(nb2)
+                blocks[last]["term"] = {"k": "goto", "target": cstart}
         variants = list(acts)
         if enum == "bool":
             b["term"] = {"k": "switch", "discr": {"k": "copy", "place": {"local": dl, "proj": []}}, "targets": [["0", arms["false"]]], "otherwise": arms["true"], "span": span}
@@ -256,6 +297,44 @@ def expand_combinators(prog, d):
             b["term"] = {"k": "switch", "discr": {"k": "move", "place": {"local": dl, "proj": []}}, "targets": targets, "otherwise": len(blocks) - 1, "span": span}
         changed = True
     return changed
+
+
+def _try_chain_impl(blocks, start, dest_local):
+    """[converter calls ->] Try::branch(move v) -> switch on its discriminant, starting at block `start`, fed by the
+    local dest_local.  returns (chain block ids, continue target, break target) or None"""
+    chain, cur, val = [], start, dest_local
+    for _ in range(4):
+        b = blocks[cur]
+        if b["cleanup"] or b["stmts"]:
+            return None
+        t = b["term"]
+        if t["k"] != "call" or not t["args"] or t["target"] < 0:
+            return None
+        a0 = t["args"][0]
+        if a0.get("k") not in ("move", "copy") or a0["place"]["proj"] or a0["place"]["local"] != val or t["dest"]["proj"]:
+            return None
+        c = _callee(t)
+        chain.append(cur)
+        if c.rsplit("::", 1)[-1] in CONVERTERS:
+            val = t["dest"]["local"]
+            cur = t["target"]
+            continue
+        if c.endswith("::branch"):
+            sw = blocks[t["target"]]
+            if sw["cleanup"] or sw["term"]["k"] != "switch" or len(sw["stmts"]) != 1:
+                return None
+            st = sw["stmts"][0]
+            if st["rv"]["k"] != "discr" or st["rv"]["place"]["local"] != t["dest"]["local"] or st["rv"]["place"]["proj"]:
+                return None
+            e = {v: tgt for v, tgt in sw["term"]["targets"]}
+            cont = e.get("0")
+            brk = e.get("1", sw["term"]["otherwise"])
+            if cont is None:
+                return None
+            chain.append(t["target"])
+            return chain, cont, brk
+        return None
+    return None
 
 
 class Inliner:
@@ -498,6 +577,9 @@ class Inliner:
 
     # -- one call site -----------------------------------------------------------------------
     def _try_chain(self, blocks, start, dest_local):
+        return _try_chain_impl(blocks, start, dest_local)
+
+    def _unused(self, blocks, start, dest_local):
         """[converter calls ->] Try::branch(move v) -> switch on its discriminant, starting at block `start`, fed by the
         local dest_local.  returns (chain block ids, continue target, break target) or None"""
         chain, cur, val = [], start, dest_local
